@@ -36,6 +36,10 @@ type Store struct {
 	PreCopy func()
 	// Inner, when set, is the real store behind the map mirror (FileSystem).
 	Inner Persistence
+	// AliasLoad makes Load hand out the stored slice itself instead of a copy,
+	// as the library's own in-memory store does; the interface does not say who
+	// owns the returned bytes. Not to be combined with snapshots.
+	AliasLoad bool
 }
 
 // Persistence mirrors mqtt.Persistence.
@@ -117,7 +121,11 @@ func (s *Store) Load(key uint) ([]byte, error) {
 			}
 			v = iv
 		} else if cur, ok := s.cur[key]; ok {
-			v = append([]byte{}, cur...)
+			if s.AliasLoad {
+				v = cur
+			} else {
+				v = append([]byte{}, cur...)
+			}
 		}
 	}
 	s.end("load", key, v, fail, call)
